@@ -384,7 +384,14 @@ fn commented(c: &Case) -> String {
 }
 
 fn module_text(cases: &[Case], k: usize, with_values: bool) -> Vec<String> {
-    let mut s = String::from("Ts-Mod-A DEFINITIONS AUTOMATIC TAGS ::= BEGIN\nIMPORTS Imp-Type, imp-val, E164, X-509, T1 FROM Ts-Mod-B;\n");
+    module_text_clause(cases, k, with_values, k % 2 == 0)
+}
+
+fn module_text_clause(cases: &[Case], k: usize, with_values: bool, class_clause: bool) -> Vec<String> {
+    // every other module set lists a class and a parameterized type (symbols without a TypeScript counterpart) in the
+    // middle of the clause, in front of symbols that are used
+    let clause = if class_clause { "Imp-Type, IMP-CLASS, imp-val, Par-T{}, E164, X-509, T1" } else { "Imp-Type, imp-val, E164, X-509, T1" };
+    let mut s = format!("Ts-Mod-A DEFINITIONS AUTOMATIC TAGS ::= BEGIN\nIMPORTS {clause} FROM Ts-Mod-B;\n");
     s.push_str(BASE_DEFS);
     for c in cases {
         // some assignments carry a comment of several lines in front, with the closing delimiter of a block comment in it
@@ -406,7 +413,7 @@ fn module_text(cases: &[Case], k: usize, with_values: bool) -> Vec<String> {
         }
     }
     s.push_str("END\n");
-    vec![s, "Ts-Mod-B DEFINITIONS ::= BEGIN\nImp-Type ::= INTEGER (0..9)\nimp-val INTEGER ::= 3\nE164 ::= IA5String\nX-509 ::= OCTET STRING\nT1 ::= SEQUENCE { a BOOLEAN }\nEND\n".into()]
+    vec![s, "Ts-Mod-B DEFINITIONS ::= BEGIN\nImp-Type ::= INTEGER (0..9)\nimp-val INTEGER ::= 3\nE164 ::= IA5String\nX-509 ::= OCTET STRING\nT1 ::= SEQUENCE { a BOOLEAN }\nIMP-CLASS ::= CLASS { &id INTEGER UNIQUE }\nPar-T { P } ::= SEQUENCE { p P }\nEND\n".into()]
 }
 
 pub fn gen_cases(cfg: &RunCfg) -> Vec<Case> {
@@ -473,12 +480,14 @@ pub fn run(cfg: &RunCfg) -> Report {
     // compile in chunks, bisecting chunks that do not compile
     let mut reqs: Vec<String> = Vec::new();
     let mut meta: Vec<usize> = Vec::new();
-    let mut work: Vec<Vec<usize>> = (0..cases.len()).collect::<Vec<_>>().chunks(40).map(|c| c.to_vec()).collect();
+    // every chunk is compiled twice: with the plain IMPORTS clause and with the clause that lists a class and a
+    // parameterized type between the used symbols
+    let mut work: Vec<(Vec<usize>, bool)> = (0..cases.len()).collect::<Vec<_>>().chunks(40).flat_map(|c| [(c.to_vec(), false), (c.to_vec(), true)]).collect();
     let mut chunk_no = 0;
-    while let Some(idx) = work.pop() {
+    while let Some((idx, class_clause)) = work.pop() {
         chunk_no += 1;
         let sel: Vec<Case> = idx.iter().map(|i| cases[*i].clone()).collect();
-        let srcs = module_text(&sel, chunk_no, true);
+        let srcs = module_text_clause(&sel, chunk_no, true, class_clause);
         match compile_ts(&srcs) {
             Outcome::Ok { generated, warnings } => {
                 let nss = match parse_ts(&generated) {
@@ -486,8 +495,8 @@ pub fn run(cfg: &RunCfg) -> Report {
                     Err(e) => {
                         if idx.len() > 1 {
                             let mid = idx.len() / 2;
-                            work.push(idx[..mid].to_vec());
-                            work.push(idx[mid..].to_vec());
+                            work.push((idx[..mid].to_vec(), class_clause));
+                            work.push((idx[mid..].to_vec(), class_clause));
                         } else {
                             rep.evaluations += 1;
                             rep.unsat("", false, json!({"why": format!("the generated TypeScript does not parse structurally (unbalanced delimiters or broken declaration): {e}"), "case": case_json(&cases[idx[0]])}));
@@ -511,7 +520,9 @@ pub fn run(cfg: &RunCfg) -> Report {
                 for (alias, m, n) in &ns.imports {
                     let ok = nss.iter().any(|o| &o.name == m && o.decls.iter().any(|d| matches!(d, TsDecl::Alias(x, _) | TsDecl::Enum(x, _) | TsDecl::Const(x) if x == n)));
                     if !ok || alias != n {
-                        rep.unsat("", false, json!({"why": format!("import {alias} = {m}.{n} does not name a declaration of namespace {m}"), "case": case_json(&cases[idx[0]])}));
+                        // a parameterized type has no declaration of its own; that its name is imported all the same is a listed finding
+                        let template = n == "Par_T" && alias == n;
+                        rep.unsat(if template { "C18_import_of_parameterized_type" } else { "" }, template, json!({"why": format!("import {alias} = {m}.{n} does not name a declaration of namespace {m}"), "case": case_json(&cases[idx[0]])}));
                     }
                 }
                 // values: one const each
@@ -568,8 +579,8 @@ pub fn run(cfg: &RunCfg) -> Report {
             other => {
                 if idx.len() > 1 {
                     let mid = idx.len() / 2;
-                    work.push(idx[..mid].to_vec());
-                    work.push(idx[mid..].to_vec());
+                    work.push((idx[..mid].to_vec(), class_clause));
+                    work.push((idx[mid..].to_vec(), class_clause));
                 } else {
                     rep.evaluations += 1;
                     match other {
